@@ -44,6 +44,8 @@ def monitor(module: str, cfg: str, name: str, traces: list[dict], *, workers=16,
     """Validate recorded traces with a Trace_* monitor.  Returns
     {tid: [(event_index, clause, detail), ...]} - one entry per trace."""
     wd = workdir("mon-" + name)
+    for t in traces:
+        t.setdefault("owner", "M")
     doc = {"traces": traces}
     if header:
         doc.update(header)
